@@ -400,6 +400,58 @@ def main(out_path):
     L.append(f"Definition SUGGEST_DEDUP_MERGES_CRITERIA : bool := {'true' if merges else 'false'}.")
     L.append("")
 
+    # --- which criteria reference sites Store::validate checks (and under which guard)
+    val = fn_body(storage, "validate")
+    loops = []
+    for m in re.finditer(r"\bfor\s+(.+?)\s+in\s+([^{]+?)\s*\{", val):
+        ob = m.end() - 1
+        loops.append((m.start(), match_brace(val, ob), re.sub(r"\s+", "", m.group(2))))
+    guards = []
+    for m in re.finditer(r"\bif\s+check_file_formatting\s*\{", val):
+        guards.append((m.start(), match_brace(val, m.end() - 1)))
+    SITE_BY_ITER = {
+        "&self.config.exemptions": "SExemption", "&self.audits.audits": "SAudit",
+        "&self.audits.wildcard_audits": "SWildcard", "&self.audits.trusted": "STrusted",
+        "&self.audits.criteria": "SImplies", "&policy.dependency_criteria": "SPolicyDep",
+        "&import.criteria_map": "SCriteriaMap", "audits_file.audits.values().flatten()": "SLockAudit",
+        "audits_file.wildcard_audits.values().flatten()": "SLockWildcard",
+    }
+    sites = {}
+    for m in re.finditer(r"\bcheck_criteria\(", val):
+        if val[max(0, m.start() - 3):m.start()] == "fn ":
+            continue
+        op = m.end() - 1
+        cp = match_brace(val, op, "(", ")")
+        args_ = [re.sub(r"\s+", "", a) for a in split_top(val[op + 1:cp]) if a.strip()]
+        if len(args_) != 4:
+            raise TranslateError(f"unexpected check_criteria call shape: {args_}")
+        arg = args_[3]
+        enclosing = sorted([l for l in loops if l[0] < m.start() < l[1]], key=lambda l: l[0])
+        site = None
+        if arg.startswith("policy.criteria"):
+            site = "SPolicy"
+        elif arg.startswith("policy.dev_criteria"):
+            site = "SPolicyDev"
+        else:
+            for l in reversed(enclosing):
+                if l[2] in SITE_BY_ITER:
+                    site = SITE_BY_ITER[l[2]]
+                    break
+        if site is None:
+            raise TranslateError(f"cannot classify check_criteria call with argument {arg!r} inside loops {[l[2] for l in enclosing]}")
+        guarded = any(g[0] < m.start() < g[1] for g in guards)
+        sites[site] = "locked" if guarded and sites.get(site) != "true" else "true"
+    ALL_SITES = ["SExemption", "SPolicy", "SPolicyDev", "SPolicyDep", "SImplies", "SAudit", "SWildcard", "STrusted",
+                 "SCriteriaMap", "SLockAudit", "SLockWildcard"]
+    L.append("(* criteria reference sites and whether Store::validate(.., check_file_formatting = locked) checks them *)")
+    L.append("Inductive site := " + " | ".join(ALL_SITES) + ".")
+    L.append("Definition validate_checks (locked : bool) (s : site) : bool :=")
+    L.append("  match s with")
+    for st in ALL_SITES:
+        L.append(f"  | {st} => {sites.get(st, 'false')}")
+    L.append("  end.")
+    L.append("")
+
     # --- storage constants
     m = re.search(r"let\s+max_end_date\s*=\s*today\s*\+\s*chrono::Months::new\((\d+)\)", storage)
     if not m:
